@@ -42,6 +42,20 @@ COMMON_ASSUMPTIONS = [
 ]
 
 
+def G(fn, F, R, *a, **k):
+    """run one rule module; an exception inside the checker is not evidence about the tree: the module's rules are
+    reported undecided (loudly, with the place) and the other modules of the property still run.  A check in which nothing
+    at all is decided fails as BLIND (engine)."""
+    import traceback
+    try:
+        return fn(F, R, *a, **k)
+    except Exception as ex:   # noqa
+        tb = traceback.extract_tb(ex.__traceback__)
+        last = tb[-1] if tb else None
+        name = "%s.%s" % (getattr(fn, "__module__", "?"), getattr(fn, "__name__", "?"))
+        R.undecided("CHECKER-ERROR", name, "%s:%s" % (last.filename.replace("/verif/", ""), last.lineno) if last else "", "not evaluable: the rule module raised %s: %s" % (type(ex).__name__, str(ex)[:300]))
+
+
 def run(pid, tier):
     spec = PROPS[pid]
     R = engine.Report(pid, tier)
@@ -67,9 +81,7 @@ def _load():
       assumptions=["pest 2.9 Pratt semantics as read from its source (expr loops while rbp < lbp; Left rhs rbp=prec, Right rbp=prec-1)"])
 def c09(F, R, tier):
     import c09 as mod
-    mod.check(F, R, get_grammar())
-
-
+    G(mod.check, F, R, get_grammar())
 @prop("C11",
       technique="static: symbolic evaluation of the extracted printer tables on operator trees, re-read by a model of the extracted PEG choice order and Pratt table; Display/FromStr table agreement; bounded symbolic round trip text -> pest-matcher model -> converters (HIR) -> printers (HIR) -> text over grammar-generated program families",
       explanation="Decides (PRINT-PARSE) for PreExp: for every parent/child operator pair and side (and every grandchild chain whose pairs pass) the text produced by the printer functions, evaluated from their typed HIR on symbolic trees, is re-read by the extracted grammar literals (ordered choice) and the extracted Pratt table into a tree equal to the original modulo real/Boolean associativity identities; (T-PREC/T-ASSOC) precedence() is order-isomorphic to the Pratt levels and is_left_associative() agrees with the table; (S-TOKENS) for every fieldless enum with both Display and FromStr, from_str(display(v)) = v, and displayed operator/comparison tokens are selected by the grammar rule that maps back to the same variant; (OBJ-HEADER) the objective line the PreObjective printer writes for each OptimizationType is a sentence of an alternative of the grammar rule `objective` (keyword, body or no body) whose keyword parses back to the same variant; (NUM-FORMAT) every float written by a function reachable from the formatter's Display impl (following resolved callees and the Display impls of formatted values) uses the decimal `{}`/`{:.N}` form, never Debug or an exponent form, which the grammar's number rule does not contain. (ROUND-TRIP) for every text of three bounded families -- (A) the ~200 program texts the repository itself contains, (B) one text per choice alternative / optional part / repetition of the grammar, (C) ~190 expression forms placed in every expression slot of the grammar, nested one level (quick: ~2 200 programs, thorough: ~8 600) -- the text is matched by a model of pest's matcher over the dumped grammar (ordered choice, implicit whitespace, atomicity, node tags as pest assigns them), converted by the crate's own converters and printed by the crate's own Display impls, both evaluated from their typed HIR with pest's Pair/Pairs/PrattParser API modelled; obligations: the converters do not panic (pest's Pratt loop) on an accepted text, the formatted text is accepted and converted again, its AST equals the original up to spans, numeric literal kinds and literal name fragments, and formatting it again gives the same text. NOT decided: programs outside the families (deeper nestings), comments (dropped by the grammar), that equal ASTs compile to equal models (that is the transformer).",
@@ -77,14 +89,12 @@ def c09(F, R, tier):
 def c11(F, R, tier):
     import c11 as mod
     import objhdr
-    mod.check(F, R, get_grammar())
-    objhdr.check(F, R, get_grammar(), "C11")
+    G(mod.check, F, R, get_grammar())
+    G(objhdr.check, F, R, get_grammar(), "C11")
     import c12
-    c12.num_format(F, R, ["<parser::pre_model::PreModel as std::fmt::Display>::fmt"])
+    G(c12.num_format, F, R, ["<parser::pre_model::PreModel as std::fmt::Display>::fmt"])
     import c11rt
-    c11rt.check(F, R, get_grammar(), tier)
-
-
+    G(c11rt.check, F, R, get_grammar(), tier)
 @prop("C12",
       technique="static: symbolic evaluation of the extracted Exp printer on operator trees re-read by the extracted grammar/Pratt model; sign/abs pairing rule; float-rendering guard rule; generated-name templates vs grammar",
       explanation="Decides (PRINT-PARSE) for the compiled-model printer Exp::to_string_with_precedence/Display/logic_operand_to_string over all parent/child operator pairs incl. abs/min/max blocks and all grandchild chains whose pairs pass; (SIGN-SPLIT) every printer that renders v.abs() chooses the sign with an exact test (a tolerant float_lt loses the sign of tiny negatives); (NUM-SPELL) every f64 rendered by Display for Exp / VariableType is guarded by an infinity test or spelled Infinity/MinusInfinity; (G-NAMES) every compiler-generated name template ($abs_n, $max_n_select_i, name__n, ...) instantiates to a string derivable from simple_variable/compound_variable with underscore_literal fragments; (OBJ-HEADER) the objective line written by Display for Objective and for LinearModel for each OptimizationType is a sentence of an alternative of the grammar rule `objective`; (T-DOMAIN-SPELL) Display for VariableType, evaluated on one representative of every class of bounds it can distinguish (-inf, negative, 0, positive, +inf), writes each infinite bound as the standard-library constant whose extracted value is that bound and the bare type name only for the default bounds; (NUM-FORMAT) as in C11, for the functions reachable from Display for Model and LinearModel. (LINEAR-ROUND-TRIP) a family of 79 LinearModel values (every coefficient class -- unit, negative, fractional, 1e-7, 1e9, zero -- at the first and at a later position, every right-hand side and relation, row-name form, offset, optimisation type, variable-name form incl. generated `$` and `__` names, every domain form, grouped declarations) is printed by the crate's Display impl evaluated from its HIR, matched by the model of pest's matcher, converted by the crate's own converters, and read back by a reference reader of plain affine text: optimisation type, objective coefficients and offset, every row's name, coefficients, relation and right-hand side and every variable's domain must be exactly those of the model; (COMPILE-RENDER) the same reading is applied to the ~220 linear models that the emulated compile step (C01 COMPILE-EQUIV) produces, whose domains must also be non-crossed (a domain with its lower end above its upper end is rejected when the rendering is recompiled). NOT decided: that the transformer and linearizer compile such plain affine text to that model (C01/C10); textual idempotence of the rendering after a full recompilation (auxiliary naming and row order belong to the compiler); finiteness of linear-model numbers (that is C08).",
@@ -92,238 +102,209 @@ def c11(F, R, tier):
 def c12(F, R, tier):
     import c12 as mod
     import objhdr
-    mod.check(F, R, get_grammar())
-    objhdr.check(F, R, get_grammar(), "C12")
-    mod.num_format(F, R, ["<parser::model_transformer::model::Model as std::fmt::Display>::fmt", "<transformers::linear_model::LinearModel as std::fmt::Display>::fmt"])
+    G(mod.check, F, R, get_grammar())
+    G(objhdr.check, F, R, get_grammar(), "C12")
+    G(mod.num_format, F, R, ["<parser::model_transformer::model::Model as std::fmt::Display>::fmt", "<transformers::linear_model::LinearModel as std::fmt::Display>::fmt"])
     import c12rt
-    c12rt.check(F, R, get_grammar(), tier)
+    G(c12rt.check, F, R, get_grammar(), tier)
     import c01rt
-    c01rt.check_render(F, R, get_grammar(), tier)
+    G(c01rt.check_render, F, R, get_grammar(), tier)
     import c12rc
-    c12rc.check(F, R, get_grammar(), tier)
-
-
+    G(c12rc.check, F, R, get_grammar(), tier)
 @prop("C15",
       technique="static: must-check rule (status read, status table, data-flow to with_status on typed HIR; dominance of value reads by the status call on MIR)",
       explanation="Decides for every call of microlp::Problem::solve_with whose options are not provably default, and for the good_lp bridge: (a) Solution::status() is read; (b) its match maps Interrupted to Err, Feasible to SolutionStatus::Feasible, distinct from Optimal; (c) the mapped status flows into LpSolution::with_status; (d) on MIR the status() call dominates every read of the solution's objective/values, including closures that read them; (OPT-FORWARD) user options are stored into SolveOptions unmodified. NOT decided: what microlp does under a limit (documented dependency contract: limits return Ok with Status::Feasible/Interrupted; SolveOptions::validate rejects bad gaps).",
       assumptions=["microlp 0.5.0 documented contract of solve_with/Status/var_value", "good_lp SolutionStatus contract"])
 def c15(F, R, tier):
     import c15 as mod
-    mod.check(F, R)
+    G(mod.check, F, R)
     import c04rt
-    c04rt.check(F, R, tier, props=("C15",))
-
-
+    G(c04rt.check, F, R, tier, props=("C15",))
 @prop("C05",
       technique="static: enum-to-enum conversion tables located by type (match tables and variant-blind closures), who-may-construct for verdict variants",
       explanation="Decides (T-VERDICT) every match that converts a back-end error enum having an Infeasible/Unbounded/limit variant (microlp::Error, good_lp::ResolutionError, SimplexError, CanonicalTransformError) into SolverError keeps the verdict and never turns a non-verdict into one; (ENUM-MAP) no variant-blind closure converts such an enum into a single SolverError; Clarabel DualInfeasible/AlmostDualInfeasible -> Unbounded; infinite/NaN microlp objective -> Unbounded/Infeasible; (W-PRODUCER) the only producer of CanonicalTransformError::Infesible is guarded by float_ne(value, 0.0) and the only producer of SimplexError::Unbounded by the absence of a leaving row; (L, W-STATE from C14) the pivot loops are bounded by the iteration counter, Bland's rule is switched on by the stall counter, and that counter is reset only when the objective moved, so that the simplex-based solvers reach a verdict instead of cycling. NOT decided: that optima and verdicts are numerically right.",
       assumptions=["variant lists of microlp::Error and good_lp::ResolutionError as in the vendored sources"])
 def c05(F, R, tier):
     import c05 as mod
-    mod.check(F, R)
+    G(mod.check, F, R)
     import c14
-    c14.canonical_start(F, R)
-    c14.loops(F, R)
+    G(c14.canonical_start, F, R)
+    G(c14.loops, F, R)
     import c04rt
-    c04rt.check(F, R, tier, props=("C05",))
+    G(c04rt.check, F, R, tier, props=("C05",))
     import c05rt
-    c05rt.check(F, R, tier, props=("C05",))
+    G(c05rt.check, F, R, tier, props=("C05",))
     import c20rt
-    c20rt.check(F, R, tier, props=("C05",))
-
-
+    G(c20rt.check, F, R, tier, props=("C05",))
 @prop("C04",
       technique="static: mapping tables located by scrutinee type, positional data-flow of bounds, adapter white-list on column iteration, data-flow of activities/offset on typed HIR",
       explanation="Decides (T-MAP) Comparison->microlp ComparisonOp / good_lp leq,geq,eq with strict comparisons rejected; OptimizationType->direction; VariableType->column constructor with bounds in (min,max) order for microlp (2 sites) and good_lp, and the VariableType->MILPValue read-back kinds; (H-COLUMNS) one unconditional column push per variable, no reordering/filtering adapter in the three bridge functions, one Assignment per variable; (D-ACTIVITY) row activities are computed on `lp` from the returned solution's values; (D-OFFSET) every reported objective includes objective_offset (directly or via calc_objective), the tableau flips the value and not the offset; (S-SPLIT reader) the tableau read-back drops exactly $sl_/$su_/$a_ and rebuilds x = $p x - $m x; (EARLY-OK) no public solver entry returns Ok without a back-end call unless it consulted the rows. NOT decided: that the numbers returned by microlp/Clarabel/the tableau satisfy the rows within 1e-6 (numeric, in dependencies); `value as i32` relies on microlp's documented exact rounding of integer columns.",
       assumptions=["microlp::Solution::var_value returns exactly rounded integers for integer columns (documented)"])
 def c04(F, R, tier):
     import c04 as mod
-    mod.check(F, R)
+    G(mod.check, F, R)
     import c15
-    c15.check(F, R)
+    G(c15.check, F, R)
     import c14
-    c14.canonical_start(F, R)
+    G(c14.canonical_start, F, R)
     import c04rt
-    c04rt.check(F, R, tier, props=("C04",))
+    G(c04rt.check, F, R, tier, props=("C04",))
     import c05rt
-    c05rt.check(F, R, tier, props=("C04",))
+    G(c05rt.check, F, R, tier, props=("C04",))
     import c20rt
-    c20rt.check(F, R, tier, props=("C04",))
-
-
+    G(c20rt.check, F, R, tier, props=("C04",))
 @prop("C17",
       technique="static: writer tables extracted from the typed HIR of to_lp_format (sense, relation, section membership per VariableType, positional data-flow of bounds), sign/abs pairing, generated-name namespace rule",
       explanation="Decides (T-SENSE) OptimizationType->Maximize/Minimize; (T-REL) Comparison-><=,>=,=; (T-SECTIONS) per VariableType: Boolean only under Binary, IntegerRange under General with a `min <= name <= max` bounds entry, reals with a bounds entry built by lp_bound in (min, name, max) order, `free` only under the (-inf,+inf) test, the entry omitted only for the default NonNegativeReal range; (NUM-SPELL) lp_bound spells +-infinity; (SIGN-SPLIT) every printed magnitude has its sign decided by an exact `< 0.0`; (NAME-NS) generated row labels are tested against user-written names. (LP-ROUND-TRIP) to_lp_format, evaluated from its typed HIR on a family of 87 linear models (every coefficient class at the first and at a later position, right-hand sides, relations, named and unnamed rows incl. names that collide with generated labels, offsets, senses, every domain form for every name form), is read by an independent reference reader of the LP format written from the format's rules (default bounds 0 <= x < +inf, a bounds line overrides only the side it states, `free`, Binary/General); sense, objective and constant, every row and every variable's bounds and integrality must be the model's. NOT decided: acceptance by an independent LP reader beyond these tables; finiteness of coefficients (C08).")
 def c17(F, R, tier):
     import c17 as mod
-    mod.check(F, R)
+    G(mod.check, F, R)
     import c17rt
-    c17rt.check(F, R, get_grammar(), tier)
-
-
+    G(c17rt.check, F, R, get_grammar(), tier)
 @prop("C13",
       technique="static: writer tables and write-set/pairing rules on the typed HIR of the standardizer; writer/reader prefix-set agreement",
       explanation="Decides (T-BOUNDROWS) per Real/NonNegativeReal arm: a finite min gives a GreaterOrEqual row and a finite max a LessOrEqual row, each guarded by its own finiteness test, with coefficient 1.0 at the variable's own index, no row for the default range; (W-PUSHPAIR) in the free-variable loop every container (variables, each constraint, objective) receives exactly two unconditional appends (+c,-c)/($p,$m) in that order and the four removals use the same index list; (T-SLACK) <= gets +1.0 named $sl_, >= gets -1.0 named $su_, = nothing, strict comparisons are rejected, total_variables is bumped per column; (T-FLIP) Max negates the objective and sets the flip flag, the offset is never negated, a negated rhs negates all coefficients; (S-SPLIT) prefixes written by the standardizer/two-phase start equal the prefixes the tableau read-back understands; (SIGN-SPLIT) the rhs normalisation uses an exact sign test. (STD-EQUIV) to_standard_form with normalize_constraint, EqualityConstraint::new and remove_many is evaluated from its typed HIR on a family of 54 continuous models covering every case the code distinguishes (each domain class alone and on either side of free variables, 2-4 adjacent free variables, every relation with positive / zero / negative / tiny-negative right-hand side, both senses, offsets); the result must be exactly the textbook standard form of the model: the model's rows followed by one row per non-default bound, each scaled by -1 iff its right-hand side is negative, one $sl/$su column of the right sign per inequality used by that row only, every free variable replaced by a $p/$m pair with opposite coefficients in every row and in the objective, costs negated for Max with the flip flag set, offset kept; Boolean / integer models are refused. NOT decided: point-wise equivalence of the two feasible sets and objective values.")
 def c13(F, R, tier):
     import c13 as mod
-    mod.check(F, R)
+    G(mod.check, F, R)
     import c04
-    c04.tableau_readback(F, R)
+    G(c04.tableau_readback, F, R)
     import c05rt
-    c05rt.check(F, R, tier, props=("C04", "C05"))
-
-
+    G(c05rt.check, F, R, tier, props=("C04", "C05"))
 @prop("C19",
       technique="static: sibling agreement of the static (can_apply_*, get_type) and runtime (apply_*_op) operator tables extracted from typed HIR and evaluated over the full finite kind x operator x kind domain; error-conversion rule; inventory of Any escapes; bounded symbolic evaluation of the type checker and the transformer (typed HIR) on a family of ill-typed programs",
       explanation="Decides (S-OPS) for all 10 x 9 x 12 (kind, binary operator, kind) and 10 x 2 unary cells: whenever PrimitiveKind::can_apply_* accepts, the runtime arm selected in the ApplyOp impls cannot build a type-class OperatorError; (S-RESULT) for the 4 x 4 x 4 numeric cells and negation, the kind PreExp::get_type predicts is the Primitive variant the runtime arm builds (through checked_i64/checked_u64/checked_div); (ERR-KIND) no variant-blind `Err(_)` arm converts an error enum that has data-dependent variants (DivisionByZero, Overflow, ...) into a type-class TransformError; (S-ANY) every construct where the checker waves PrimitiveKind::Any through is enumerated (each is a hole in soundness by construction); (D-SCOPE-USE) in every type-checking function that opens one frame per iteration and pops them in a loop, every use of the checker context with a part of the checked item other than the iteration list (sides, name indexes) lies between the pushes and the pops, as it does when the item is transformed -- a check outside the frames sees the iteration variables unbound and accepts what the transformer rejects. (TYPE-SOUND) a family of programs with perturbed types -- 21 value kinds (integer, float, string, boolean, array, nested array, string array, graph, range, literals, node, edge, row, element, tuple part, array element, len) x ~120 positions (operands of + - * / in constants and constraints, negation, comparison sides, the five logic operators, compound-variable indexes, range ends, iteration and quantifier sets with and without use of the element, destructuring of 2 and 3 names, array access target and indexes, block and scoped block bodies, domain bounds and sets, every argument position of the 11 builtin functions incl. one argument too many or too few, unknown function, nested scopes; quick ~820 programs, thorough ~2 470): the type checker (create_type_checker and everything it calls, with the per-function type_check overrides) and the transformer are both evaluated from typed HIR; a program the checker accepts must not fail in the transformer with WrongArgument, WrongExpectedArgument, WrongFunctionSignature, WrongNumberOfArguments, BinOpError, UnOpError, Unspreadable, SpreadError, NonExistentFunction or UndeclaredVariable. During development the emulated verdicts (accept / reject / error kind) were identical to the real compiler's on all 2 466 programs. NOT decided: programs outside the family, user-supplied functions and constants.")
 def c19(F, R, tier):
     import c19 as mod
-    mod.check(F, R)
+    G(mod.check, F, R)
     import c19rt
-    c19rt.check(F, R, get_grammar(), tier)
-
-
+    G(c19rt.check, F, R, get_grammar(), tier)
 @prop("C20",
       technique="static: purity (no arithmetic) of every hop of the dual-value path, positional pairing of (name, constraint reference) inside one loop iteration, filter shape, on typed HIR",
       explanation="THIN CLAIM: decides only that the bridge is a pure forwarder. (PURE-FORWARD) collect_good_lp_duals, LpSolution::with_shadow_prices/shadow_prices, DualValues::shadow_price, BuilderSolution::shadow_price and the Clarabel extraction closure perform no arithmetic on the dual and pass it on unmodified; (PAIRING) the stored value is dual.dual(reference) of the reference paired with that name in the same tuple, the pair is built from add_constraint(row) and row.name() in the same loop iteration, rows with an empty name are filtered by is_empty and nothing else is filtered or reordered; (T-MAP, shared with C04) the bridge hands good_lp the model's own direction and builds every row as `expression <relation> right-hand side` with the relation of the model (good_lp defines a dual as the sensitivity to the constant on the right: a row written the other way round returns the dual with the opposite sign). NOT decided: that the dual value reported by good_lp/Clarabel equals the sensitivity of the optimum, its sign convention for min/max and <=/>= rows, zero for inactive rows -- all numeric facts of the dependencies.")
 def c20(F, R, tier):
     import c20 as mod
-    mod.check(F, R)
+    G(mod.check, F, R)
     # good_lp derives the sign convention of its duals from the direction flag: the bridge must hand over
     # the model's own direction (Max -> Maximisation), not a re-normalised objective
     import c04
-    c04.t_map_direction(F, R)
+    G(c04.t_map_direction, F, R)
     # ... and from the orientation of each row: the constant must stay on the right of the relation it was written with
-    c04.t_map_comparison(F, R)
+    G(c04.t_map_comparison, F, R)
     import c20rt
-    c20rt.check(F, R, tier, props=("C20",))
-
-
+    G(c20rt.check, F, R, tier, props=("C20",))
 @prop("C10",
       technique="static: symbolic evaluation of the extracted rewrite functions (typed HIR) on an exhaustive family of small expression trees, compared under an independent semantics on an exact rational grid; syntactic hazard-preservation rule; must-precede data-flow rule for normalisation",
       explanation="Decides, for every arithmetic tree of depth <= 2 over {x, y, 0, 1, 2, -1} with + - * / and unary minus (quick: one operand of the second level a leaf; thorough: full) and a family of ~1.5k logic/n-ary trees incl. non-0/1 truthy constants and division hazards: (REWRITE-SEM) simplify, flatten and flatten+simplify, evaluated from their HIR by the table interpreter, return a tree that is defined and equal to the input wherever the input is defined, on a 9-point-per-variable exact grid (enough to decide identity of the rational functions of these degrees); (REWRITE-HAZARD) a division by zero or by a non-constant never disappears; (IDEMPOTENT) simplify(simplify(e)) = simplify(e) on the family; (T-FOLD) num_truthy / logic_number tables; (NORMALISE-FIRST) every BoundsAnalyzer::analyze call receives constraints that went through flatten().simplify(). (COMPILE-EQUIV, spellings part) two families of equivalent spellings of one constraint (a negated group written with unary minus, -1 *, 0 -, a negative divisor, or moved across the relation; a doubling written as 2*x, x*2, x+x, x/0.5, -(-2*x), 2*(x+1)) are compiled by the emulated compile step: all spellings must give the variable the same domain and the same feasible set on a grid. NOT decided: trees beyond the bound, Min/Max constant folding (outside the evaluated fragment), float rounding of folded constants, equality of compiled linear models under re-spelling beyond the normalisation-order clause.")
 def c10(F, R, tier):
     import c10 as mod
-    mod.check(F, R, tier)
+    G(mod.check, F, R, tier)
     import c01rt
-    c01rt.check(F, R, tier, "C10")
-
-
+    G(c01rt.check, F, R, tier, "C10")
 @prop("C08",
       technique="static: must-precede / dominance rules on MIR, local data-flow and who-may-write rules on typed HIR, guard/field-set agreement for big-M constants",
       explanation="Decides (D-SORTED) the variable list handed to LinearModel::new_from_parts is the local sorted once (sort dominates construction on MIR), never mutated, derived from the unique keys of the domain marked used; the domain is filtered by membership in it and column indexes enumerate it; (D-USAGE) every Exp::Variable built in PreExp::into_exp is dominated by increment_domain_variable_usage of the same name, auxiliaries are marked used on declaration, the builder marks all; (D-FINITE) each of the 4 big-M constants built from bound end-points uses only end-points that the MissingFiniteBounds guard of the same lowering (and the same min/max arm) tests finite; (FINITE-SANITISE) a finiteness test exists between linearised expressions and the rows / objective offset; (N-NAMES) row-name de-duplication tests user and assigned names and keeps the first use, declare_variable rejects existing names, all auxiliary templates start with `$`, every name counter is incremented; (W-COEFF) LinearizationContext::add_var, which merges, is the only writer of coefficients. (COMPILE-EQUIV, well-formedness part) every linear model produced on the C01 family by the emulated compile step has sorted distinct variables, one coefficient per variable in every row and in the objective, finite numbers only, distinct non-empty row names and a domain for exactly its variables. NOT decided: nothing numeric is needed; the D-rules follow helpers one level only.")
 def c08(F, R, tier):
     import c08 as mod
-    mod.check(F, R)
+    G(mod.check, F, R)
     import c01rt
-    c01rt.check(F, R, tier, "C08")
+    G(c01rt.check, F, R, tier, "C08")
     import c08rt
-    c08rt.check(F, R, get_grammar(), tier)
-
-
+    G(c08rt.check, F, R, get_grammar(), tier)
 @prop("C01",
       technique="static: sign/variance typing of the requirement argument of every recursive linearize call against the post-processing applied to its result; relaxation tables evaluated over their finite domains; end-point polarity of big-M constants; dominance (apply_to_domain before construction); guard/field-set agreement",
       explanation="PARTIAL (necessary structure). Decides (P-REQ) for each of the 19 recursive Exp::linearize calls and the helper entries: the requirement passed down equals the sign with which the returned value enters the caller's result (merge_sub / mul_by(-1) / mul_by(k) / div_by(k) tracked; `reversed`, `through_scale(k)`, `through_scale(1/k)` normalised), Exact accepted everywhere; (T-CONVEX) reversed/through_scale tables, abs exact-vs-one-sided table, (ExtremeKind, requirement)->one_sided table true only for (Max,PreferLower),(Min,PreferHigher), operand requirement table, one-sided row direction, row comparison->requirement table; (P-BIGM) big-M constants are U(aux)-L(operand) for max and U(operand)-L(aux) for min, abs factors 2L with (1-p) and 2U with p, exact rows' direction and combinator, pruning tests L(other)>=U(this) / U(other)<=L(this), sign-known abs shortcuts on L>=0 / U<=0 with the matching requirement, selectors sum to one; (D-APPLY) derived bounds are applied to the domain handed to the linearizer, declare_variable is the only writer of the domain and registers bounds too; (D-FINITE) big-M end-points are tested finite by the guard of the same arm. (T-NUM-TEMPLATES) the abs / min / max lowering arms of Exp::linearize and linearize_extreme (and the arithmetic arms that hand a requirement down: +, -, scale, division, negation) are evaluated from their HIR with the linearizer context replaced by a recorder and the bounds oracle being the crate's own BoundsAnalyzer::bounds_of over a table of variable intervals; for 13 interval classes of abs, 12 of binary min/max (dominated, overlapping, equal-fixed, half-bounded, unbounded), ternary and constant operands and 19 nested forms (abs of a sign-known or sign-unknown min/max, min/max of abs, negative scales and divisors, differences), each under the three value requirements (153 templates), the emitted rows and auxiliary domains are decided on a rational grid of operand values including non-integers: Exact -- some 0/1 selectors satisfy all rows iff the value equals f(operands); PreferLower/PreferHigher -- f(operands) stays reachable and nothing on the wrong side of it is let in; a refusal is accepted only when a needed bound is infinite; a row with a non-finite constant is rejected. (COMPILE-EQUIV, feasible-set part) the whole compile step Linearizer::linearize (normalisation, bounds analysis and write-back, every lowering, the constraint loop with logic normalisation and contradiction rows, naming, variable filtering, assembly) is evaluated from its typed HIR on a family of two-variable models (pairs of constraints drawn from 21 left-hand forms incl. cancelling and constant-only ones x relation x right-hand side, three declared boxes incl. integer and Boolean); for every point of a rational grid of the declared box the source constraints and domains hold iff some auxiliary values satisfy every row and domain of the linear model (continuous auxiliaries eliminated exactly by Fourier-Motzkin over the rationals, Boolean ones enumerated); quick ~220 models, thorough ~640. During development the emulation gave text-identical linear models to the real compiler on 300 random models of the family. NOT decided: that the rows are an exact encoding -- big-M magnitudes with the right polarity (2L vs L), ties between equal fixed operands, interplay with bound propagation, real (non-grid) points, and the logic-lowering templates (not built).")
 def c01(F, R, tier):
     import c01 as mod
-    mod.check_c01(F, R)
+    G(mod.check_c01, F, R)
     import c01rt
-    c01rt.check(F, R, tier, "C01")
-
-
+    G(c01rt.check, F, R, tier, "C01")
 @prop("C02",
       technique="static: requirement polarity typing and relaxation tables (shared with C01), objective-direction table, data-flow of the objective offset from the linearised objective into the linear model and into every solver's reported value",
       explanation="PARTIAL. Decides P-REQ and T-CONVEX as for C01 (a wrong polarity in the objective makes the relaxed auxiliary unbounded or the optimum wrong); (T-OBJ) Min->PreferLower, Max->PreferHigher; (D-OFFSET) the constant of the linearised objective reaches LinearModel::new_from_parts unmodified together with its coefficients and the model's own direction, and every solver entry adds objective_offset (or uses calc_objective) when reporting the value, the tableau flipping the value but not the offset. (T-NUM-TEMPLATES, one-sided part) as in C01 for the PreferLower / PreferHigher requirements: on the grid the one-sided abs/min/max lowerings never let a value on the objective's good side of f(operands) in and keep f(operands) itself feasible, through negative scales, divisors and differences too. (COMPILE-EQUIV, objective part) on the same family and grid as C01: at every feasible point the best value of the linear objective over the auxiliaries (exact elimination) equals the value of the source objective. NOT decided: equality of optimal values and optimal assignments (numeric).")
 def c02(F, R, tier):
     import c01 as mod
-    mod.check_c02(F, R)
+    G(mod.check_c02, F, R)
     import c01rt
-    c01rt.check(F, R, tier, "C02")
-
-
+    G(c01rt.check, F, R, tier, "C02")
 @prop("C07",
       technique="static: end-point polarity type system over the interval constructors; forward/inverse operation tables extracted from typed HIR; field-use and who-may-write rules; loop-bound and freeze rules",
       explanation="PARTIAL. Decides (P-IVL) every Bounds::new / struct literal in bounds.rs builds its lower end-point from lower bounds (L) or exact constants and its upper from upper bounds, under the typing rules L+L=L, U+U=U, -L=U, branch-known sign of scale factors, min/max of equal polarity, loosening by the tolerance, ceil/floor only for integer ranges, max(L,0) only for non-negative variables; (T-BOUNDSOF) each Exp form is enclosed by the interval operation of the same name, min/max fold both end-points with min/max, products and quotients only by (non-zero) literals, everything else unbounded, logic forms [0,1]; (T-INVERSE) reverse propagation uses the inverse operation with the other operand's enclosure (Add, Sub, Mul c!=0, Div d!=0, Neg, affine rows), requirement table per comparison, intersect-first; (W-REVERSE) abs and max read only required.upper, min only required.lower, logic forms tighten nothing; (W-NANFREE) no raw end-point sums outside lower_sum/upper_sum, zero factors short-circuit; (W-WRITE) only tighten_variable stores ranges and it stores the intersection; (D-FREEZE, L-STEPS) propagation stops at the step limit and on a contradiction. (T-IVL-SEM) BoundsAnalyzer::bounds_of with the Bounds arithmetic is evaluated from its typed HIR on 21 expression forms (negation, abs, sums, differences, positive / negative / zero scales and divisors, min, max, nestings) over 10 interval classes per variable (sign-known, sign-unknown, point, half-bounded, unbounded): every interval returned is well formed (no NaN, lower <= upper) and contains the form's value at every point of a rational operand grid. (BOUNDS-SOUND) the whole analysis -- BoundsAnalyzer::analyze with AffineForm extraction, the propagation queue, forward and reverse rules, tighten_variable, the infeasibility flag -- and apply_to_domain are evaluated from their typed HIR on a family of two-variable models: single constraints and pairs drawn from 180 templates (18 left-hand forms incl. abs, min, max, nested and negatively scaled ones x relation x right-hand side) under four declared boxes (bounded, half-bounded, integer, free); on a rational grid of the declared box every point satisfying the constraints lies inside the derived range of each variable and inside the domain written back (integer rounding included), no bound is NaN, and the infeasibility flag is raised only when no grid point is feasible (quick ~1 100 models, thorough ~10 000). NOT decided: the algebra of prefix/suffix sums, float rounding of propagated bounds, the published-range soundness as a whole (numeric).")
 def c07(F, R, tier):
     import c07 as mod
-    mod.check(F, R, tier)
-
-
+    G(mod.check, F, R, tier)
 @prop("C06",
       technique="static: constructor tables per block kind and fold-shape rules on typed HIR, range-operator tables (parser and runtime), scope open/close pairing, adapter white-list, sibling agreement of name spelling, grammar separator; bounded symbolic evaluation of the front end (typed HIR) on construct / hand-unrolled program pairs",
       explanation="PARTIAL. Decides (T-BLOCKS) for both BlockFunctionKind and BlockScopedFunctionKind each kind builds the documented form (min->Min, max->Max, all->And, any->Or, xor->left Xor fold with 0, sum->right Add fold with identity 0, prod->right Mul fold with identity 1, avg->sum divided by the count taken before the pop), folds iterate the remaining operands in reverse with the newest operand on the left (source order kept), kinds shared by the two enums agree; (T-RANGE) `..`->exclusive, `..=`->inclusive in the parser, and both integer branches of range() build Range/RangeInclusive accordingly from `from` to `to`; (D-SCOPE) in every function that opens scope frames, opens and Ok-path closes pair up (same iteration list) and iteration variables are declared after the frame is opened; (W-ORDER) no order-changing or filtering adapter between to_primitives() and the loops / folds / declaration expansion; (S-NAMES) the run-time and the static flattening of an indexed name spell every Primitive kind the same way, joined with `_`, which is the grammar's separator. (EXPAND-EQUIV) a family of programs written with the constructs (31 written-out pairs plus template x data pairs: range ends incl. empty and single-element ranges, arrays, nested arrays, enumerate / zip / len, union / intersection / difference, five graphs with and without weights, neighbour sets, tuple destructuring, (1,23)/(12,3) index flattening, string indexes, sibling and dependent scopes, named constraints, quantified declarations, every aggregation block and scoped form incl. empty ones; quick ~170 pairs, thorough ~560) and the text unrolled by hand in iteration order both go through the emulated front end -- model of pest's matcher, converters, transform_parsed_problem, Linearizer::linearize, all evaluated from their typed HIR -- and must give the same linear model line for line (rows, order, names, coefficients, right-hand sides, variables, domains). NOT decided: programs outside the family; intersection / difference of a first operand with repeated elements (the text does not fix whether repeats survive).")
 def c06(F, R, tier):
     import c06 as mod
-    mod.check(F, R, get_grammar())
+    G(mod.check, F, R, get_grammar())
     import c06rt
-    c06rt.check(F, R, get_grammar(), tier)
-
-
+    G(c06rt.check, F, R, get_grammar(), tier)
 @prop("C16",
       technique="static: symbolic evaluation of the extracted builder translation and operator impls on operand samples of every type combination; call-graph must-pass-through over MIR; handle resolution data-flow; token-tree tables of the macro_rules! definitions; bounded symbolic evaluation of builder call sequences against the emulated text front end",
       explanation="PARTIAL. Decides (H-TOEXP) to_exp maps every Expr variant (13, with all 9 BinOps and 2 UnOps) to the same-named Exp form with operands in place and indexes resolved through the name table; (H-OPS) each of the 76 expanded std::ops impls for Expr/Var/f64/i32/bool builds the same-named operator with self on the left and rhs on the right (evaluated from their HIR), plus implies/iff; (S-EVAL) eval_expr agrees with the language's operator semantics on all operator x {0,1,2,-1}^2 constant cells, truthy/bool_num tables; (FUNNEL) only Linearizer::linearize assembles a LinearModel, the builder (linearize, solve_with), the one-shot solver and the pipes reach it, text entries reach parse_problem_source / transform_parsed_problem, pest is entered only from the pre-model parser; (D-HANDLE) handle -> variable_names[index] -> value_of(name), first duplicate wins, the solution carries the builder's name table, into_model marks every declared variable used and defaults to satisfy. (M-TABLE) the builder's macro_rules! definitions, read as token trees: in munch_constraint each comparison token builds BuilderConstraint::new(expr!(left), Comparison::<its variant>, expr!(right), ..), `->`, `<->` and the base arm assert the whole formula, dispatch arms precede the munching arm; munch_expr maps `->`/`<->` to Implies/Iff with operands in place; constraint! sets the name from stringify!(name); every vars! arm (6 scalar, 6 array forms) declares stringify!(name) through add_var / add_vars(.., count, ..) with the VariableType constructor of its keyword and ($min, $max) in order, binds the handle and continues. (FRONT-DOOR-EQUIV) ~115 models (32 numeric forms on either side of each comparison, 19 logic forms as assertions and as values, objectives, strict comparisons, satisfy / no objective, unbounded domains, a mixed model) are written once as source text and once as the builder calls a user would write -- the operator impl chosen by the Rust operand types (Var, Expr, f64, i32, bool), abs / min / max / sum / all / any, implies / iff, BuilderConstraint::new / new_logic_assertion, with / with_all, objective before or after the constraints; both sides are evaluated from typed HIR down to the printed LinearModel (ModelBuilder::linearize against matcher model + converters + transform_parsed_problem + Linearizer::linearize) and must agree line for line. NOT decided: the staged pipe runner and one-shot solver as whole programs (covered by FUNNEL only), solver verdicts and values, macro hygiene / expansion by rustc itself.")
 def c16(F, R, tier):
     import c16 as mod
-    mod.check(F, R)
+    G(mod.check, F, R)
     import macrotab
-    macrotab.check(F, R)
+    G(macrotab.check, F, R)
     import c16rt
-    c16rt.check(F, R, get_grammar(), tier)
-
-
+    G(c16rt.check, F, R, get_grammar(), tier)
 @prop("C03",
       technique="static: stage-order dominance on MIR, error-propagation discipline on typed HIR, type-level infallibility of bound inference, arm-shape rule for detected contradictions",
       explanation="THIN CLAIM (pipeline shape only). Decides (D-STAGES) in RoocSolver::solve_with_data_using the calls create_type_checker -> transform -> Linearizer::linearize -> solver callback each dominate the next, the solver receives the linearised model, and in lib.rs, the pipes and the builder every Result of a stage call (parse, type check, transform, linearize, standardise, tableau, solver entries) is propagated with `?`/an Err arm and never discarded (.ok(), unwrap_or, let _, wrapped in Ok); (T-CONTRADICTION) BoundsAnalyzer::analyze/analyze_with_options/propagate/apply_to_domain do not return Result and no function of bounds.rs does; a constraint normalised to a contradiction and a constant assertion of the wrong truth value emit the row 0 = 1 and continue; an empty rounded integer range keeps the declared domain; (EARLY-OK) no public solver entry returns Ok without a back-end call unless it consulted the rows. (T-LOGIC-TEMPLATES, shared with C01) the rows emitted for every logic form (assertions and reified values, 115 forms) are decided on the whole Boolean cube. NOT decided: everything semantic -- that returned values satisfy the text, that the objective is optimal, that infeasible texts get the infeasible verdict. Static analysis contributes least here; see C01, C02, C04, C05, C09 for the tables this property leans on.")
 def c03(F, R, tier):
     import c03 as mod
-    mod.check(F, R)
+    G(mod.check, F, R)
     # a wrong row in a logic lowering is a wrong answer end to end: the template cube check of C01 is shared
     import c01
-    c01.t_logic_templates(F, R)
+    G(c01.t_logic_templates, F, R)
     import c05rt
-    c05rt.check(F, R, tier, props=("C03",))
-
-
+    G(c05rt.check, F, R, tier, props=("C03",))
+    # a rewrite of a constraint or objective that changes its value is a wrong answer end to end (simplify runs on every
+    # constraint before bound inference and lowering): the value-preservation rule of C10 is shared
+    import c10
+    G(c10.check, F, R, tier, only=("REWRITE-SEM",))
 @prop("C14",
       technique="static: loop-bound rule and state write-set/ordering rule on typed HIR; tolerance predicates evaluated from their HIR over value pairs around the tolerance",
       explanation="THIN CLAIM (termination and state discipline). Decides (L) both solve loops are `while iteration < limit` and every arm of the step match either increments the counter or returns, leaving by the limit reports IterationLimitReached; (T-PRED) the six float predicates, evaluated from their HIR on 169 value pairs around the 1e-5 tolerance, satisfy: exactly one of lt/eq/gt, le = lt|eq, ge = gt|eq, ne = !eq, lt(a,b) = gt(b,a); (W-STATE) pivot writes all five state components with the documented formulas, eliminates with factors a[i][h]/pivot and c[h]/pivot, skips the pivot row, and normalises the pivot row only after all other updates; optimality test (all costs float_ge 0) and entering rule (costs float_lt 0, non-basic) are complementary; Bland's rule is enabled by the stall counter and picks the smallest index; the ratio test runs over positive entries with smallest-basis-index tie break; a step tests optimality first. NOT decided: that the equation system stays equivalent, the basis stays feasible, the objective is monotone, optimal/unbounded reports are genuine -- numeric invariants of the tableau. This property is essentially dynamic.")
 def c14(F, R, tier):
     import c14 as mod
-    mod.check(F, R)
+    G(mod.check, F, R)
     import c05rt
-    c05rt.check(F, R, tier, props=("C14", "C05", "C04"))
-
-
+    G(c05rt.check, F, R, tier, props=("C14", "C05", "C04"))
 @prop("C18",
       technique="static: panic census over the functions reachable (MIR call graph, dyn calls expanded) from the public stages -- every indexing, unwrap/expect, panic!/unreachable!, integer arithmetic and panicking Vec/str operation in their typed HIR must be discharged by a recognised structural guard or by the reviewed table; loop-bound rule; recursion / mutual recursion inventory with reviewed measures; allocation-bound rule for user-sized ranges",
       explanation="Decides for the 42 entry points (parse, format, type-check, transform, linearize, standardise, tableau, the five solver entries, RoocSolver, PipeRunner, error renderers and Display of the model types) and the ~550 functions reachable from them: (C-GUARD/C-TABLE/C-PANIC) each of the ~270 constructs that can panic is either discharged automatically (index bound by a 0..len loop or enumerate of the same collection, constant index / remove(0) / unwrap after an `is_empty()/is_none()/len() <` early return, contains_key, full-range slices, len+1 ...) or matches an entry of rules/c18_sites.json that names the guard or invariant justifying it (multiset semantics: a new site with the same text is new); anything else is reported; (L) each of the 10 non-for loops has a counter-bounded exit, consumes a collection it does not grow, or has a reviewed variant; (R, R-SCC) every directly or mutually recursive group is a structural descent on an owned/borrowed tree (recognised) or has a reviewed measure; (UNBOUNDED-ALLOC) a Range whose bounds come from call arguments and that is collected must be preceded by a length test. The MIR panic-terminator count of the same functions is reported next to the HIR census as a cross-check. NOT decided: stack depth (nesting is bounded by the input, not by the code), running time, memory use, panics inside dependencies (pest, microlp, clarabel, indexmap) and inside derive-generated code.")
 def c18(F, R, tier):
     import c18 as mod
-    mod.check(F, R, tier)
-    mod.unbounded_alloc(F, R)
-
-
+    G(mod.check, F, R, tier)
+    G(mod.unbounded_alloc, F, R)
 # ---- additions after the false-alarm campaign (DESIGN 9.9): the evaluated rules each property gained, appended to its claim
 POLICY = (" VERDICTS: every obligation is discharged, violated (a counterexample of an evaluated family, or a recognised construct with the wrong content) or undecided"
           " (the rule could not find, recognise or evaluate what it looks at -- after a refactoring, say); only violations fail the check; undecided obligations are printed and counted in"
           " the evidence; a property of which nothing could be decided fails as BLIND. Clauses that recognise one spelling of the code can confirm it; when they miss they are undecided and"
           " the evaluated rules named below decide. ENGINE-SELFTEST: the interpreter behind the evaluated rules is checked on every run against a fixture crate whose results are known.")
 EXTRA = {
-    "C03": "(SIMPLEX-EQUIV, BRIDGE-EQUIV shared with C04/C05) verdict and optimum of the crate's simplex path equal the exact answer on the small-program family.",
+    "C11": "(ROUND-TRIP addition) quoted string indexes that spell a bound name (`x_{\"i\"}` inside `sum(i in ..)`); an identifier index equals the literal fragment of the same text only when the program binds that name nowhere.",
+    "C02": "(COMPILE-EQUIV additions) the shared-operand models of C01: the best linear objective over the auxiliaries is the source objective also when an operand's auxiliary serves a one-sided and an exact position.",
+    "C01": "(COMPILE-EQUIV additions) one nonlinear operand used several times in positions that ask different things of its auxiliary (one-sided in the objective, exact in a row; both signs in one sum; <=, >= and = rows on the same operand), and rows trivialised by a bound they imply themselves next to a contradiction (the source is infeasible everywhere: so must the linear model be).",
+    "C03": "(SIMPLEX-EQUIV, BRIDGE-EQUIV shared with C04/C05) verdict and optimum of the crate's simplex path equal the exact answer on the small-program family. (REWRITE-SEM, shared with C10) Exp::simplify / flatten, evaluated from their HIR, preserve the value of every enumerated arithmetic and logic tree (constant operands on either side included).",
     "C04": "(BRIDGE-EQUIV) both MicroLP bridges evaluated against a recording stand-in for the MicroLP API on 12 models: one column per variable in order with its kind, declared bounds and objective coefficient (also when the domain map is ordered differently from the variable list), rows, direction, each variable reported with its own column's value in its kind, objective plus constant, row activities. (GOODLP-BRIDGE-EQUIV) the same for the good_lp / Clarabel bridge. (SIMPLEX-EQUIV) the point the slow simplex returns names every variable once, lies in every declared range, satisfies every row and reproduces the reported value, on 42 (thorough 186) programs.",
-    "C05": "(SIMPLEX-EQUIV) solve_real_lp_problem_slow_simplex evaluated from typed HIR with IEEE doubles on 42 (thorough 186) programs of 1-7 variables -- bounded / free / half-bounded ranges, two-phase starts, redundant and degenerate rows, narrow infeasibility next to large right-hand sides, unbounded rays, ratio ties at small and large magnitude, tiny pivot-column entries, Beale's and Chvatal's cycling examples: the verdict is the exact one (Fourier-Motzkin over the rationals) and the optimum agrees to 1e-6; during development the evaluated path gave bit-identical values to the compiled crate on all programs. (BRIDGE-EQUIV / GOODLP-BRIDGE-EQUIV) solver errors and statuses map to the same verdicts.",
-    "C07": "(BOUNDS-SOUND additions) tiny coefficients on very wide variables; the published domain is held to exact containment of feasible end points in the inexact-arithmetic family.",
-    "C08": "(WELL-FORMED-SRC) 22 source programs compiled by the emulated front end and compile step: repeated and generated-looking row names stay distinct with the first use kept, cancelling / multiplying infinities are refused or leave finite numbers only, missing-bounds errors name exactly the variables without two finite ends, every used variable is a sorted, duplicate-free column.",
-    "C09": "(CONVERT-EXP addition) a binary minus glued to its operands (`2(y)-3`, `7-2`, `x-1`) is the binary minus.",
+    "C05": "(SIMPLEX-EQUIV) solve_real_lp_problem_slow_simplex evaluated from typed HIR with IEEE doubles on 42 (thorough 186) programs of 1-7 variables -- bounded / free / half-bounded ranges, two-phase starts, redundant and degenerate rows, narrow infeasibility next to large right-hand sides, unbounded rays, ratio ties at small and large magnitude, tiny pivot-column entries, Beale's and Chvatal's cycling examples: the verdict is the exact one (Fourier-Motzkin over the rationals) and the optimum agrees to 1e-6; during development the evaluated path gave bit-identical values to the compiled crate on all programs. (BRIDGE-EQUIV / GOODLP-BRIDGE-EQUIV) solver errors and statuses map to the same verdicts. (SIMPLEX-EQUIV addition) programs with as many own columns as rows but not one per row (an = / >= / negative <= row without a column of its own).",
+    "C07": "(BOUNDS-SOUND additions) tiny coefficients on very wide variables; the published domain is held to exact containment of feasible end points in the inexact-arithmetic family. (BOUNDS-SOUND addition) eleven rows of four to six variables (every relation, mixed signs, integer ranges, a second row), sound on the corner/middle grid of the box.",
+    "C08": "(WELL-FORMED-SRC) 22 source programs compiled by the emulated front end and compile step: repeated and generated-looking row names stay distinct with the first use kept, cancelling / multiplying infinities are refused or leave finite numbers only, missing-bounds errors name exactly the variables without two finite ends, every used variable is a sorted, duplicate-free column. (WELL-FORMED-SRC addition, collisions) for every auxiliary name the lowering generates on five base programs (exact abs / max / min, logic value, logic assertion), the program is compiled again with a user declaration of that very name as IntegerRange(3, 7), once used in a row and once never used: it is refused, or the name keeps the user's domain.",
+    "C09": "(CONVERT-EXP addition) a binary minus glued to its operands (`2(y)-3`, `7-2`, `x-1`) is the binary minus. (CONVERT-EXP additions) implicit products with negated parenthesised factors (`(-2)(-3)`, `(-x)(-y)`, `12 / (-2)(-3)`, ...); for the documented forms a tree other than the written one is accepted when it has the same value on every probe assignment.",
     "C10": "(REWRITE-HAZARD addition) divisions by zero / by a variable hidden in abs, min, max under a zero factor, a zero numerator or a self-difference must survive simplify and flatten.",
     "C12": "(RECOMPILE-EQUIV) 91 (thorough 667) programs: the printed linear model is accepted by grammar, converters, type checker and transformer and compiles to the very same text again, incl. names that collide with index fragments. (LINEAR-ROUND-TRIP addition) magnitudes up to 1e30. Known findings: empty `s.t.` section, non-idempotent bound propagation, zero-coefficient variable dropped on recompilation.",
     "C13": "(SIMPLEX-EQUIV shared) the standard form is exercised end to end by the simplex family.",
     "C14": "(SIMPLEX-EQUIV) see C05; all clauses above recognise source text of the pivot / ratio test / canonical start and are undecided when it is written differently. The step-wise invariants (monotone objective per pivot) are NOT decided.",
     "C15": "(BRIDGE-EQUIV) 8 option sets (none, gap, limit, both, zero / negative / NaN gap) x 3 solver statuses: mip_gap and time_limit reach SolveOptions unchanged, nothing else differs from SolveOptions::default() (microlp 0.5), Optimal -> Optimal, Feasible -> Feasible, Interrupted -> Err(LimitReached) whatever the options.",
-    "C16": "(FRONT-DOOR-EQUIV addition) constants written in the text or supplied through the API: the type checker accepts and the transformer compiles the same model when a text constant is defined from an API constant.",
+    "C16": "(FRONT-DOOR-EQUIV addition) constants written in the text or supplied through the API: the type checker accepts and the transformer compiles the same model when a text constant is defined from an API constant. (FRONT-DOOR-EQUIV addition) objectives without variables (a bare number, a constant expression, x - x) keep direction and constant through the builder as in the text.",
     "C17": "(LP-ROUND-TRIP addition) coefficients, right-hand sides, offsets and bounds up to 1e30 and at 2^63.",
-    "C19": "(TYPE-SOUND addition) elements of union / intersection / difference / zip / enumerate results used in the kind the checker gives them.",
-    "C20": "(GOODLP-BRIDGE-EQUIV) solve_real_lp_problem_clarabel -> solve_with_good_lp -> collect_good_lp_duals evaluated against a recording model of good_lp (variables, expressions built with good_lp's overloaded operators, constraints, direction, scripted values / duals / statuses) on 4 models: every named row's shadow price is the dual held for that row's own constraint reference, unchanged (duals of both signs, tiny ones, binding rows with right-hand side 0); unnamed rows are left out; the objective keeps the model's direction and sign; rows keep their expression on the left with the matching comparison.",
+    "C19": "(TYPE-SOUND addition) elements of union / intersection / difference / zip / enumerate results used in the kind the checker gives them. (TYPE-SOUND addition, scoping) 23 programs that use a name where it is not (yet) bound: an iterator / quantifier / domain quantifier that mentions the name it binds or a later one, a block name used after the block or in a sibling, constants defined from later constants or from iteration names.",
+    "C20": "(GOODLP-BRIDGE-EQUIV) solve_real_lp_problem_clarabel -> solve_with_good_lp -> collect_good_lp_duals evaluated against a recording model of good_lp (variables, expressions built with good_lp's overloaded operators, constraints, direction, scripted values / duals / statuses) on 4 models: every named row's shadow price is the dual held for that row's own constraint reference, unchanged (duals of both signs, tiny ones, binding rows with right-hand side 0); unnamed rows are left out; the objective keeps the model's direction and sign; rows keep their expression on the left with the matching comparison. (GOODLP-BRIDGE-EQUIV addition) rows far from unit scale (coefficients 5000 / 1e6 / 5e-4): a row may be handed over at another scale k (relation turned round for k < 0), the reported price must then be k times the solver's dual.",
 }
 for _pid, _spec in PROPS.items():
     _spec["explanation"] = _spec["explanation"] + (" " + EXTRA[_pid] if _pid in EXTRA else "") + POLICY
